@@ -190,10 +190,11 @@ func init() {
 }
 
 type c04State struct {
-	w   *mc.W
-	ras rec.Raster
-	z   render.Renderer
-	vm  ref.VM
+	w    *mc.W
+	ras  rec.Raster
+	z    render.Renderer
+	rect image.Rectangle // the raster the Renderer under test draws into (viewBox: the default)
+	vm   ref.VM
 }
 
 func (st *c04State) applyBoth(c *rec.Call) {
@@ -252,13 +253,14 @@ func (st *c04State) probe(adj uint8, height int, fail func(key, what string)) bo
 	// drawn: Reset, MoveTo, LineTo, LineTo, ClosePath, Draw
 	nReset, nDraw := 0, 0
 	var paint *rec.Paint
+	var sp image.Point
 	for i := range calls {
 		switch calls[i].K {
 		case rec.RReset:
 			nReset++
 		case rec.RDraw:
 			nDraw++
-			paint = &calls[i].Paint
+			paint, sp = &calls[i].Paint, calls[i].SP
 		}
 	}
 	if nReset != 1 || nDraw != 1 || len(calls) != 6 {
@@ -290,6 +292,33 @@ func (st *c04State) probe(adj uint8, height int, fail func(key, what string)) bo
 		fail("wrong-gradient-paint", fmt.Sprintf("gradient should have shape %d spread %d stops %v, rasteriser got %s", want.Shape, want.Spread, want.Stops, *paint))
 		return false
 	}
+	// the six matrix registers NREG[NBASE-6 .. NBASE-1] (modulo 64), composed with the pixel map
+	// (C15 and C19 judge what the matrix means; here: that it is read from the right registers)
+	if st.rect.Dx() > 0 && st.rect.Dy() > 0 {
+		vb := ivg.DefaultViewBox
+		sx := float64(st.rect.Dx()) / float64(vb.MaxX-vb.MinX)
+		sy := float64(st.rect.Dy()) / float64(vb.MaxY-vb.MinY)
+		ox, oy := float64(vb.MinX), float64(vb.MinY)
+		rows := 1 + want.Shape
+		for r := 0; r < rows; r++ {
+			a, b, c := float64(want.Matrix[3*r]), float64(want.Matrix[3*r+1]), float64(want.Matrix[3*r+2])
+			wm := [3]float64{a / sx, b / sy, c + a*ox + b*oy}
+			mg := [3]float64{math.Abs(a / sx), math.Abs(b / sy), math.Abs(c) + math.Abs(a*ox) + math.Abs(b*oy)}
+			for k := 0; k < 3; k++ {
+				if math.IsNaN(wm[k]) || math.IsInf(wm[k], 0) {
+					continue
+				}
+				got := paint.M[3*r+k]
+				if k == 2 { // rectangle-relative pixel space, whatever source point Draw was given
+					got += paint.M[3*r]*float64(sp.X) + paint.M[3*r+1]*float64(sp.Y)
+				}
+				if !(math.Abs(got-wm[k]) <= math.Ldexp(mg[k], -20)+1e-300) {
+					fail("wrong-gradient-matrix", fmt.Sprintf("matrix registers hold %v: Transform()[%d] should be %g, rasteriser got %g", want.Matrix, 3*r+k, wm[k], got))
+					return false
+				}
+			}
+		}
+	}
 	return true
 }
 
@@ -303,6 +332,7 @@ func (st *c04State) history(cs *c04Case) {
 	}
 	pal := c04Pals[cs.Pal]
 	st.z = render.Renderer{}
+	st.rect = rect
 	st.z.SetRasterizer(&st.ras, rect)
 	if cs.Reused {
 		// the same Renderer rendered another graphic with the SAME palette before: every colour and
@@ -467,7 +497,8 @@ func (st *c04State) gradientOne(cbase, nbase, nstops, t int) {
 	var nreg [64]float32
 	c04Template(t, &creg, &nreg)
 	st.z = render.Renderer{}
-	st.z.SetRasterizer(&st.ras, image.Rect(0, 0, 16, 16))
+	st.rect = image.Rect(0, 0, 16, 16)
+	st.z.SetRasterizer(&st.ras, st.rect)
 	st.z.Reset(ivg.DefaultViewBox, ivg.DefaultPalette)
 	st.vm.Reset(ivg.DefaultPalette)
 	// load the register file with incrementing writes starting at 1 (register 0 holds the gradient)
